@@ -16,31 +16,36 @@ namespace FB
 namespace Overlay
 open BuildDirs
 
-/-- the executor at the start of a build: no overlay, nothing being built or finished yet -/
+/-- the executor at the start of a build: no overlay, nothing being built or finished yet; `oldFiles` is what
+    `FileBuilder` hands to `BuildDirs`: the previous build's outputs and the cache file -/
 structure AtStart (c : Ctx) (oldFiles : List Path) : Prop where
   cf : c.cf = none
   building : c.building = []
   finished : c.finished = []
-  old : c.oldCreated = oldFiles
+  old : ∀ p, p ∈ oldFiles ↔ p ∈ c.oldCreated ∨ p = c.cacheFile
 
 theorem start_isFile (c : Ctx) (oldDirs oldFiles : List Path) (hs : AtStart c oldFiles) (hwf : TreeWF c.fs)
     (b : BD) (hb : QReach c.fs oldDirs oldFiles b) (p : Path) :
-    ((isFile c b p).1 = true ↔ c.fs.isFile p = true ∧ p ≠ c.cacheFile ∧ p ∉ oldFiles) ∧
+    ((isFile c b p).1 = true ↔ c.fs.isFile p = true ∧ p ∉ oldFiles) ∧
     QReach c.fs oldDirs oldFiles (isFile c b p).2 := by
   unfold isFile isFileNoRead
-  simp only [hs.cf, hs.building, hs.finished, hs.old, List.contains_nil, Bool.false_eq_true, if_false]
+  simp only [hs.cf, hs.building, hs.finished, List.contains_nil, Bool.false_eq_true, if_false]
   by_cases h1 : p = c.cacheFile
   · simp only [h1, if_true]
-    exact ⟨⟨(fun h => nomatch h), (fun h => absurd rfl h.2.1)⟩, hb⟩
+    exact ⟨⟨(fun h => nomatch h), (fun h => absurd ((hs.old _).mpr (Or.inr rfl)) h.2)⟩, hb⟩
   · simp only [h1, if_false]
-    by_cases h2 : oldFiles.contains p = true
+    by_cases h2 : c.oldCreated.contains p = true
     · simp only [h2, if_true]
-      exact ⟨⟨(fun h => nomatch h), (fun h => absurd (by simpa using h2) h.2.2)⟩, hb⟩
+      exact ⟨⟨(fun h => nomatch h), (fun h => absurd ((hs.old p).mpr (Or.inl (by simpa using h2))) h.2)⟩, hb⟩
     · simp only [h2, Bool.false_eq_true, if_false]
-      have h2' : p ∉ oldFiles := by simpa using h2
+      have h2' : p ∉ oldFiles := by
+        intro hm
+        rcases (hs.old p).mp hm with h | h
+        · exact h2 (by simpa using h)
+        · exact h1 h
       by_cases h3 : c.fs.isFile p = true
       · simp only [h3, if_true]
-        exact ⟨⟨(fun _ => ⟨trivial, h1, h2'⟩), (fun _ => trivial)⟩,
+        exact ⟨⟨(fun _ => ⟨trivial, h2'⟩), (fun _ => trivial)⟩,
           QReach.dirExists b p.dropLast hb (anchor_of_isFile c.fs oldDirs oldFiles hwf p h3 h2')⟩
       · simp only [h3, Bool.false_eq_true, if_false]
         exact ⟨⟨(fun h => nomatch h), (fun h => absurd h.1 (by simp))⟩, hb⟩
@@ -83,7 +88,7 @@ theorem start_isDir (c : Ctx) (oldDirs oldFiles : List Path) (hs : AtStart c old
 theorem C04_start_exists (c : Ctx) (oldDirs oldFiles : List Path) (hs : AtStart c oldFiles) (hwf : TreeWF c.fs)
     (hv : Valid oldDirs oldFiles) (b : BD) (hb : QReach c.fs oldDirs oldFiles b) (p : Path) (r : Bool) (b' : BD)
     (hrun : exists_ c b p = some (r, b')) :
-    (r = true ↔ (c.fs.isFile p = true ∧ p ≠ c.cacheFile ∧ p ∉ oldFiles) ∨
+    (r = true ↔ (c.fs.isFile p = true ∧ p ∉ oldFiles) ∨
                 (c.fs.isDir p = true ∧ ¬ (p ∈ oldDirs ∧ Gone c.fs oldDirs oldFiles p))) ∧
     QReach c.fs oldDirs oldFiles b' := by
   obtain ⟨hf, hbf⟩ := start_isFile c oldDirs oldFiles hs hwf b hb p
@@ -105,26 +110,35 @@ theorem C04_start_exists (c : Ctx) (oldDirs oldFiles : List Path) (hs : AtStart 
 
 def exCtx : Ctx := { fs := exFS, dirSize := 4096, cacheFile := ["cache"], oldCreated := exFiles }
 
-theorem exCtx_atStart : AtStart exCtx exFiles := ⟨rfl, rfl, rfl, rfl⟩
+/-- what `FileBuilder` passes to `BuildDirs` as old files: the outputs and the cache file -/
+def exOld : List Path := exFiles ++ [["cache"]]
+
+theorem exCtx_atStart : AtStart exCtx exOld :=
+  ⟨rfl, rfl, rfl, fun p => by simp [exCtx, exFiles, exOld, or_assoc]⟩
+
+theorem ex_valid' : Valid exDirs exOld := by
+  intro f hf d hd
+  simp only [exOld, exFiles, exDirs, List.mem_cons, List.mem_append, List.not_mem_nil, or_false] at hf hd
+  rcases hf with (rfl | rfl) | rfl <;> rcases hd with rfl | rfl <;> decide
 
 set_option maxRecDepth 4000 in
 /-- the old directory `o` (holding only an old output) does not exist; `k` (holding a foreign file) does -/
-example : (exists_ exCtx (init exDirs exFiles) ["o"]).map (·.1) = some false ∧
-    (exists_ exCtx (init exDirs exFiles) ["k"]).map (·.1) = some true ∧
-    ¬ (exFS.isDir ["o"] = true ∧ ¬ (["o"] ∈ exDirs ∧ Gone exFS exDirs exFiles ["o"])) := by
-  have h1 : (exists_ exCtx (init exDirs exFiles) ["o"]).map (·.1) = some false := by
-    simp [exists_, isFile, isFileNoRead, isDir, exCtx, isRemoved, hasCount, init, add, exDirs, exFiles, checkMaybeRemoved, checkLoop,
+example : (exists_ exCtx (init exDirs exOld) ["o"]).map (·.1) = some false ∧
+    (exists_ exCtx (init exDirs exOld) ["k"]).map (·.1) = some true ∧
+    ¬ (exFS.isDir ["o"] = true ∧ ¬ (["o"] ∈ exDirs ∧ Gone exFS exDirs exOld ["o"])) := by
+  have h1 : (exists_ exCtx (init exDirs exOld) ["o"]).map (·.1) = some false := by
+    simp [exists_, isFile, isFileNoRead, isDir, exCtx, isRemoved, hasCount, init, add, exDirs, exFiles, exOld, checkMaybeRemoved, checkLoop,
       BuildDirs.discard, exFS, FS.isFile, FS.isDir, FS.get, FS.listdir, FS.childNames, FS.sortStrs, FS.insertStr, FS.parent]
-  have h2 : (exists_ exCtx (init exDirs exFiles) ["k"]).map (·.1) = some true := by
-    simp [exists_, isFile, isFileNoRead, isDir, exCtx, isRemoved, hasCount, init, add, exDirs, exFiles, checkMaybeRemoved, checkLoop,
+  have h2 : (exists_ exCtx (init exDirs exOld) ["k"]).map (·.1) = some true := by
+    simp [exists_, isFile, isFileNoRead, isDir, exCtx, isRemoved, hasCount, init, add, exDirs, exFiles, exOld, checkMaybeRemoved, checkLoop,
       BuildDirs.discard, exFS, FS.isFile, FS.isDir, FS.get, FS.listdir, FS.childNames, FS.sortStrs, FS.insertStr, FS.parent]
   refine ⟨h1, h2, ?_⟩
-  cases hr : exists_ exCtx (init exDirs exFiles) ["o"] with
+  cases hr : exists_ exCtx (init exDirs exOld) ["o"] with
   | none => rw [hr] at h1; cases h1
   | some x =>
     obtain ⟨r, b'⟩ := x
     rw [hr] at h1; simp at h1; subst h1
-    have := (C04_start_exists exCtx exDirs exFiles exCtx_atStart exFS_wf ex_valid _ QReach.init ["o"] false b' hr).1
+    have := (C04_start_exists exCtx exDirs exOld exCtx_atStart exFS_wf ex_valid' _ QReach.init ["o"] false b' hr).1
     intro hh
     have := this.mpr (Or.inr hh)
     cases this
